@@ -60,8 +60,7 @@ theorem view_inj {nd : Node} (inv : NodeInv nd) {k k' : NameKey} {i : Nat} (hs :
 
 theorem shardInv_congr {s s' : Shard} (h1 : s'.series = s.series) (h2 : s'.seqCache = s.seqCache) (h3 : s'.minv = s.minv)
     (inv : ShardInv s) : ShardInv s' := by
-  obtain ⟨a1, a2, a3, a4, a5, a6, a7, a8, a9, a10, a11⟩ := inv
-  refine ⟨?_, ?_, ?_, ?_, ?_, ?_, ?_, ?_, ?_, ?_, ?_⟩ <;> (try rw [h1]) <;> (try rw [h2]) <;> (try rw [h3]) <;> assumption
+  exact shardInv_of_parts h1 h2 h3 inv
 
 theorem buildInverted_shards (c : Cfg) (shard m sid : Nat) (tags : List (Nat × Nat)) :
     ∀ nd : Node, ∀ k, ((Node.buildInverted c shard m sid nd tags).shards k).series = (nd.shards k).series ∧
@@ -241,28 +240,41 @@ theorem step_spec {nd : Node} (c : Cfg) (inv : NodeInv nd) (op : Op) (hr : op.is
     · intro key i hk ho; cases hk; simp only [step] at ho ⊢; exact r i (by simpa using ho)
     · intro key j hk hv; cases hk; simp only [step]; rw [h j hv]
   | metaPrepare =>
-    obtain ⟨a, v⟩ := metaPrepare_spec inv.md
-    refine ⟨⟨a, inv.sh⟩, ?_, fun _ _ h _ => (by cases h), fun _ _ h _ => (by cases h)⟩
-    exact mono_meta_frame (fun k i h => by show nd.metaPrepare.mview k = some i; rw [v]; exact h) rfl
+    obtain ⟨a, v, sh, _, _⟩ := metaPrepareE_spec inv.md c.prepareSwapsEmpty
+    refine ⟨⟨a, fun k => by show ShardInv ((nd.metaPrepareE c.prepareSwapsEmpty).shards k); rw [sh]; exact inv.sh k⟩, ?_,
+      fun _ _ h _ => (by cases h), fun _ _ h _ => (by cases h)⟩
+    exact mono_meta_frame (fun k i h => by show (nd.metaPrepareE c.prepareSwapsEmpty).mview k = some i; rw [v]; exact h) sh
   | metaFlush =>
     obtain ⟨a, _, v, s, _⟩ := metaFlushPrefix_spec inv.md 5
     refine ⟨⟨a, fun k => by show ShardInv ((nd.metaFlushPrefix 5).shards k); rw [s]; exact inv.sh k⟩, ?_,
       fun _ _ h _ => (by cases h), fun _ _ h _ => (by cases h)⟩
     exact mono_meta_frame (fun k i h => by show (nd.metaFlushPrefix 5).mview k = some i; rw [v]; exact h) s
   | indexPrepare shard =>
+    have e : (step c nd (.indexPrepare shard)).1 = nd.setShard shard ((nd.shards shard).prepareFlushE c.prepareSwapsEmpty) := by
+      simp only [step, Node.indexPrepareE, Node.indexPrepare, Node.indexDropEmpty, Shard.prepareFlushE]
+      cases c.prepareSwapsEmpty with
+      | false => simp
+      | true =>
+        simp only [if_true]
+        unfold Node.setShard
+        simp only []
+        congr 1
+        funext j
+        by_cases hj : j = shard
+        · subst hj; simp
+        · simp [hj]
+    rw [e]
     refine ⟨⟨metaInv_setShard inv.md _ _, ?_⟩, ?_, fun _ _ h _ => (by cases h), fun _ _ h _ => (by cases h)⟩
     · intro k
-      show ShardInv ((nd.setShard shard (nd.shards shard).prepareFlush).shards k)
       unfold Node.setShard
       by_cases hk : k = shard
-      · subst hk; simpa using shardInv_prepare (inv.sh k)
+      · subst hk; simpa using shardInv_prepareE (inv.sh k) c.prepareSwapsEmpty
       · simp [hk]; exact inv.sh k
-    · apply mono_of (fun k i h => by show (nd.setShard _ _).mview k = some i; rw [mview_setShard]; exact h)
+    · apply mono_of (fun k i h => by rw [mview_setShard]; exact h)
       intro k m ts i h
-      show ((nd.setShard shard (nd.shards shard).prepareFlush).shards k).series.lookup m ts = some i
       unfold Node.setShard
       by_cases hk : k = shard
-      · subst hk; simp [Shard.prepareFlush, lookup_prepare, h]
+      · subst hk; simp [series_lookup_prepareE (inv.sh k), h]
       · simp [hk, h]
   | indexFlush shard =>
     refine ⟨⟨metaInv_setShard inv.md _ _, ?_⟩, ?_, fun _ _ h _ => (by cases h), fun _ _ h _ => (by cases h)⟩
